@@ -30,8 +30,8 @@ import (
 )
 
 type gElem struct {
-	rule     string   // rule reference (lower-case first letter) or ""
-	token    string   // token reference or literal
+	rule     string    // rule reference (lower-case first letter) or ""
+	token    string    // token reference or literal
 	block    [][]gElem // parenthesised alternatives
 	optional bool      // ? or *
 	repeat   bool      // * or +
